@@ -12,7 +12,7 @@ NOTE = ("Verdicts are solver results within the bounds/assumptions listed in the
 CHECKS = [
     ("C01", "e1+e2", "jump codec decided by Kani for all origins/destinations < 2^31; every control opcode of the real VM and every closing control word of the real compiler decided against the structural semantics from arbitrary states (one-step lemmas); the induction over program structure is on paper"),
     ("C02", "e2", "for every opcode arm and the logging native words: one forward step from an arbitrary recording state followed by one reverse step restores every observable component (solver-decided per path); histories by induction on paper"),
-    ("C03", "e1", "clone isolation of bit-string buffers and interpreter vectors decided by Kani on literal shapes with symbolic contents; sharing structure of the remaining State fields argued from their types"),
+    ("C03", "e1+e2", "clone isolation of bit-string buffers decided by Kani on literal aliasing shapes with symbolic contents; the real State::clone copies every component (mirsym, arbitrary state); independence of the other containers argued from their types"),
     ("C04", "e1", "every bit-string operation against a bit-sequence model over every offset/length shape up to the stated sizes with symbolic contents (Kani), all storage shapes that CBMC can reach"),
     ("C05", "e1", "number <-> bits codecs for every width 1..128, both byte orders, every in-byte offset, symbolic values (Kani)"),
     ("C06", "e2", "every cursor word of the real bitstr_ext.rs from an arbitrary cursor state: offset/remain bookkeeping, failure atomicity, open/close nesting (one-step lemmas, z3)"),
